@@ -1,9 +1,10 @@
 CONFIG = {
     "id": "C13",
     "coq_dirs": ["theories/Dir"],
-    "coq_targets": ["theories/Dir/Properties.vo", "theories/Dir/Corr.vo"],
-    "properties_files": ["theories/Dir/Properties.v"],
-    "required_theorems": ["trace_ok_model", "trace_ok_refuted", "dir_refines", "changeid_strict", "readdir_complete", "reachable_well_formed"],
+    "coq_targets": ["theories/Dir/Properties.vo", "theories/Dir/Corr.vo", "theories/Dir/Front.vo", "theories/Dir/FrontProperties.vo"],
+    "properties_files": ["theories/Dir/Properties.v", "theories/Dir/FrontProperties.v"],
+    "required_theorems": ["trace_ok_model", "trace_ok_refuted", "dir_refines", "changeid_strict", "readdir_complete", "reachable_well_formed",
+                          "front_status_decoding", "front_status_injective", "front_offsets", "front_listing_transfers", "front_readdir_complete"],
     "harnesses": [
         {"cmd": "dir", "cases_quick": 320, "cases_thorough": 5000, "shards_quick": 8, "shards_thorough": 32, "race": True, "shared": True, "coq_dirs": ["theories/Dir"]},
     ],
